@@ -213,3 +213,104 @@ def builder_armed(repo, cname, builder, args):
     except Undecided as e:
         raise AnalysisError(f"{cname}.{builder}: cannot probe the built request: {e}")
     return {"timeout": last_false, "budget": budget, "flags": flags}
+
+
+def wait_model(ctx, repo, rule_timeout, rule_outcome):
+    """GeckoUdpProtocolHandler.wait_for_response by interpretation: a request handler built by the base constructor
+    (timeout 5 s) that accepts exactly datagrams starting b"MINE"; a real peekable queue (built by its constructor over
+    a model FIFO); a model clock that the polling sleep advances by 0.1 s; datagrams arrive / are removed by script.
+
+      own reply at the head            -> True at once, the reply popped and handled once, nothing else popped
+      a foreign datagram at the head   -> not popped, not handled, False when the timeout has passed (not earlier)
+      empty queue                      -> False when the timeout has passed
+      own reply arrives after 3 s      -> True at about 3 s
+      foreign traffic keeps changing   -> still False at the timeout: other traffic does not postpone it
+    (rule_timeout: when the attempt ends; rule_outcome: what the return value means)"""
+    from .absint import ClassRef
+    QUEUE = "AsyncPeekableQueue"
+    T = 5
+    OWN = (b"MINE-reply", ("10.0.0.5", 10022))
+    w = repo.method(BASE, "wait_for_response")
+
+    def run(script, timeout=T):
+        """script: {poll number: [("put", datagram) | ("drop-head",)]}; -> (result, seconds, handled, fifo, polls)"""
+        it = Interp(repo, max_depth=10)
+        st = {"clock": 100.0, "polls": 0}
+        handled = []
+        try:
+            q = it.apply(ClassRef(repo.cls(QUEUE)), [], {})
+        except (PyRaise, Undecided) as e:
+            raise AnalysisError(f"{QUEUE}() cannot be constructed by interpretation: {e}")
+        fifo = q.attrs["_queue"] if isinstance(q.attrs.get("_queue"), list) else []
+        q.attrs["_queue"] = fifo
+        q.attrs["qsize"] = Native(lambda a, k: len(fifo), "qsize")
+        q.attrs["empty"] = Native(lambda a, k: not fifo, "empty")
+        q.attrs["get_nowait"] = Native(lambda a, k: fifo.pop(0), "get_nowait")
+        q.attrs["put_nowait"] = Native(lambda a, k: fifo.append(a[0]), "put_nowait")
+        proto = Obj(None, {"queue": q, "_queue": q}, name="protocol")
+
+        def apply_script():
+            for op in script.get(st["polls"], ()):
+                if op[0] == "put":
+                    fifo.append(op[1])
+                elif op[0] == "drop-head" and fifo:
+                    it.call(repo.method(QUEUE, "pop"), q, [])
+
+        def hook(it_, node, callee, args, kwargs):
+            nm = getattr(callee, "name", "")
+            if nm == "time.monotonic":
+                return st["clock"]
+            if nm == "asyncio.sleep":
+                st["polls"] += 1
+                if st["polls"] > 400:
+                    raise PyRaise("model: wait_for_response did not return within 40 s of model time")
+                st["clock"] += 0.1
+                apply_script()
+                return None
+            return NotImplemented
+        it.call_hook = hook
+        try:
+            h = it.apply(ClassRef(repo.cls(BASE)), [], {"timeout": timeout, "retry_count": 2})
+        except (PyRaise, Undecided) as e:
+            raise AnalysisError(f"{BASE}(timeout=, retry_count=) cannot be constructed by interpretation: {e}")
+        h.attrs["can_handle"] = Native(lambda a, k: bytes(a[0]).startswith(b"MINE"), "can_handle")
+        h.attrs["async_handle"] = Native(lambda a, k: handled.append((a[0], a[1])), "async_handle")
+        h.attrs["handle"] = Native(lambda a, k: handled.append((a[0], a[1])), "handle")
+        apply_script()
+        try:
+            it.steps = 0
+            r = it.call(w, h, [proto])
+        except PyRaise as e:
+            r = f"raises {e.what}"
+        except Undecided as e:
+            raise AnalysisError(f"{w.qual} on the model queue: {e}")
+        return r, round(st["clock"] - 100.0, 2), handled, list(fifo), st["polls"]
+
+    F1, F2 = (b"OTHER-1", ("10.0.0.5", 10022)), (b"OTHER-2", ("10.0.0.5", 10022))
+    r, t, handled, left, _p = run({0: [("put", OWN), ("put", F1)]})
+    ctx.ob(rule_outcome, f"{w.qual}::own-reply-at-head", r is True and handled == [OWN] and left == [F1] and t <= 0.2,
+           f"{w.qual} with its own reply at the head of the queue: returns {r!r} after {t}s, handled {handled}, queue afterwards {left} - expected True at once, the reply popped and handled once, the datagram behind it untouched", w.loc,
+           sample={"rule": rule_outcome, "case": "own-reply-at-head", "result": str(r), "seconds": t})
+    r, t, handled, left, _p = run({0: [("put", F1), ("put", OWN)]})
+    ctx.ob(rule_outcome, f"{w.qual}::foreign-datagram-at-head", r is False and not handled and left == [F1, OWN],
+           f"{w.qual} with another handler's datagram at the head: returns {r!r}, handled {handled}, queue afterwards {left} - expected False with nothing popped (True only after popping and handling its own reply)", w.loc)
+    ctx.ob(rule_timeout, f"{w.qual}::foreign-datagram-at-head::times-out-on-time", r is False and T <= t <= T + 0.3,
+           f"{w.qual} blocked by a foreign datagram returns {r!r} after {t}s of model time, expected False just after the {T}s timeout", w.loc)
+    r, t, handled, left, _p = run({})
+    ctx.ob(rule_timeout, f"{w.qual}::empty-queue::times-out-on-time", r is False and T <= t <= T + 0.3 and not handled,
+           f"{w.qual} on an empty queue returns {r!r} after {t}s, expected False just after the {T}s timeout (not earlier: the reply may still come; not later: get() holds the request lock)", w.loc,
+           sample={"rule": rule_timeout, "case": "empty-queue", "result": str(r), "seconds": t})
+    r, t, handled, left, _p = run({0: [("put", F1)], 20: [("drop-head",)], 30: [("put", OWN)]})
+    ctx.ob(rule_outcome, f"{w.qual}::own-reply-arrives-later", r is True and handled == [OWN] and 2.9 <= t <= 3.3 and not left,
+           f"{w.qual}: a foreign datagram is discarded after 2 s and the own reply arrives after 3 s: returns {r!r} after {t}s, handled {handled}, queue {left} - expected True at about 3 s", w.loc)
+    churn = {0: [("put", F1)]}
+    for k in range(5, 100, 5):
+        churn[k] = [("drop-head",), ("put", F2 if (k // 5) % 2 else F1)]
+    r, t, handled, left, _p = run(churn)
+    ctx.ob(rule_timeout, f"{w.qual}::timeout-restarts-only-on-own-reply", r is False and T <= t <= T + 0.3 and not handled,
+           f"{w.qual} while unrelated datagrams keep arriving and leaving (a new head every 0.5 s): returns {r!r} after {t}s - expected False just after the {T}s timeout: "
+           f"other traffic must not postpone it, else get() neither retransmits nor fails and keeps the request lock", w.loc)
+    r, t, handled, left, polls = run({}, timeout=0)
+    ctx.ob(rule_timeout, f"{w.qual}::positive-timeout", (isinstance(r, str) and "AssertionError" in r) or (r is False and polls <= 2),
+           f"{w.qual} on a handler built with timeout 0: {r!r} after {polls} poll(s) - a request without a positive timeout must be refused (or give up at once), not poll for ever", w.loc)
+    ctx.count(f"{rule_timeout}:wait_for_response scenarios interpreted", 6)
